@@ -284,3 +284,53 @@ let bs_case (f : string array) : string =
   done;
   settle ();
   Printf.sprintf "answered=%d of=%d wrong=0 delivered=%d" (List.length !s.Model.started) n (List.length !s.Model.started)
+
+(* ---------------- shutdown (C20): sd <u|t> <ops> ---------------- *)
+(* the accept thread is run eagerly (it takes every step it can after each script operation) *)
+let sd_case (f : string array) : string =
+  let kind = f.(1) in
+  let s = ref Model.sd_init in
+  let dostep l = match Model.sd_step !s l with Some s' -> s := s'; true | None -> false in
+  let eager () =
+    let progress = ref true in
+    while !progress do
+      progress := false;
+      if dostep Model.LoopTest then progress := true;
+      (match !s.Model.backlog with
+       | c :: _ -> if dostep (Model.AcceptClient c) then progress := true
+       | [] -> ());
+      if dostep Model.AcceptWake then progress := true
+    done in
+  eager ();
+  let held = ref [] and handed = ref [] and out = ref [] in
+  List.iter (fun op ->
+      let arg () = String.sub op 1 (String.length op - 1) in
+      if op = "r" then begin
+        (* the oldest accepted client not yet handed out *)
+        let acc = List.concat (List.map (function Some c -> [nat_to_int c] | None -> []) !s.Model.accepted) in
+        (match List.filter (fun c -> not (List.mem c !handed)) acc with
+         | c :: _ -> held := !held @ [c]; handed := c :: !handed
+         | [] -> out := "r=none" :: !out)
+      end
+      else if op = "d" then begin ignore (dostep Model.ServerDrop); eager () end
+      else if op = "p" then
+        out := (Printf.sprintf "p=%s" (if kind = "t" then "na" else if !s.Model.path_removed then "gone" else "there")) :: !out
+      else if op = "a" then begin
+        out := (Printf.sprintf "a=%s" (if !held = [] then "-" else
+                                         String.concat "," (List.map (fun c -> Printf.sprintf "%d:200" c) !held))) :: !out;
+        held := []
+      end
+      else if op.[0] = 'c' then begin
+        let k = int_of_string (arg ()) in
+        ignore (dostep (Model.ClientConnect (nat_of_int k))); eager ();
+        if List.exists (fun c -> nat_to_int c = k) !s.Model.refused then out := (Printf.sprintf "c%d=failed" k) :: !out
+      end
+      else if op.[0] = 'x' then begin
+        let k = int_of_string (arg ()) in
+        ignore (dostep (Model.ClientConnect (nat_of_int k))); eager ();
+        let r = if List.exists (fun c -> nat_to_int c = k) !s.Model.refused then "refused"
+          else if List.exists (function Some c -> nat_to_int c = k | None -> false) !s.Model.accepted then "served"
+          else "connected" in
+        out := (Printf.sprintf "x%d=%s" k r) :: !out
+      end) (String.split_on_char ',' f.(2));
+  if !out = [] then "-" else String.concat " " (List.rev !out)
